@@ -649,6 +649,10 @@ def np_call(ev, name, args, kwargs, node):
                 ev.event("inplace", how="out=", root=root, target="out", node=node, value=kwargs["out"])
         r = {"add": add, "subtract": sub, "multiply": mul}[name](a, b)
         return ev.int_product(r, a, b, node) if name == "multiply" else r
+    if name == "logical_not" and len(A) == 1 and not kwargs:
+        x0 = as_v(ev, A[0])
+        if is_boolish(x0):
+            return negate(x0)
     if name == "where":
         if len(A) == 3:
             return mk_app("where", [as_v(ev, A[0]), as_v(ev, A[1]), as_v(ev, A[2])])
